@@ -79,6 +79,39 @@ def load_known() -> Dict[str, Dict[str, str]]:
     return out
 
 
+class SharedCtx:
+    """A view of a Ctx for obligations shared between properties: `rename(rule)` gives the rule name under which an obligation of
+    the sibling property counts for this one, or None when that obligation is not a necessary condition of this property (it is
+    then neither counted nor reported).  Everything else is the underlying Ctx."""
+
+    def __init__(self, ctx: "Ctx", rename: Any):
+        self.__dict__["_ctx"] = ctx
+        self.__dict__["_rename"] = rename
+
+    def __getattr__(self, name: str) -> Any:
+        return getattr(self._ctx, name)
+
+    def __setattr__(self, name: str, value: Any) -> None:
+        setattr(self._ctx, name, value)
+
+    def ok(self, rule: str, what: str, **detail: Any) -> None:
+        r = self._rename(rule)
+        if r is not None:
+            self._ctx.ok(r, what, **detail)
+
+    def fail(self, rule: str, where: str, construct: Any, message: str, witness: Any = None, path: Any = None, line: Optional[int] = None) -> None:
+        r = self._rename(rule)
+        if r is not None:
+            self._ctx.fail(r, where, construct, message, witness, path, line)
+
+    def check(self, cond: bool, rule: str, what: str, where: str, construct: Any, message: str = "", witness: Any = None,
+              line: Optional[int] = None, **detail: Any) -> bool:
+        r = self._rename(rule)
+        if r is not None:
+            return self._ctx.check(cond, r, what, where, construct, message, witness, line, **detail)
+        return cond
+
+
 class Ctx:
     def __init__(self, pid: str, tier: str, seed: int, prog: Program, quiet: bool = False):
         self.pid = pid
